@@ -35,7 +35,7 @@ def _one(args):
 
 
 def validate(module, cfg, traces, ctx=None, label=None, *, key="traces", extra=None, min_chunk=200,
-             tags=("FAIL", "END"), timeout=3600, dfs=False, par=None, extra_files=()):
+             tags=("FAIL", "END"), timeout=3600, dfs=False, par=None, extra_files=(), all_fails=False):
     """Returns (fails, results): fails = list of (index, l, clause) for every trace not accepted."""
     n = len(traces)
     if n == 0:
@@ -59,6 +59,20 @@ def validate(module, cfg, traces, ctx=None, label=None, *, key="traces", extra=N
         failed = {}
         for x in r.tagged("FAIL"):
             failed.setdefault(x[1], (x[2], x[3]))
+        if all_fails:
+            seen = set()
+            for x in r.tagged("FAIL"):
+                fails.append((c0 + x[1] - 1, x[2], x[3]))
+                seen.add(x[1])
+            for i in range(1, len(jobs[j][2]) + 1):
+                if i in seen:
+                    continue
+                if i in ended:
+                    if ctx is not None:
+                        ctx.traces += 1
+                else:
+                    fails.append((c0 + i - 1, 0, "stuck: the trace specification could not consume the trace"))
+            continue
         for i in range(1, len(jobs[j][2]) + 1):
             if i in failed:
                 fails.append((c0 + i - 1, failed[i][0], failed[i][1]))
